@@ -31,6 +31,7 @@ def cases(O):
         for v in ("DEBUG", "INFORMATION", "OFF"):
             cs.append({"id": "c15mix-%d-%s" % (i, v), "config": vlib.default_config(telemetryVerbosity=v),
                        "calls": [{"code": code, "file": "mix.js"}], "opts": {}})
+    cs += E.feature_mix_cases() + E.wide_cases() + E.receiver_table_cases()
     cs += E.finding_cases("C15")
     return cs
 
